@@ -204,8 +204,21 @@ def main(argv=None):
     ctx = mp.get_context("fork")
     work = [(modname, i, c) for i, c in enumerate(chunks)]
     per_child = getattr(mod, "TASKS_PER_CHILD", 8)
+    chunk_timeout = getattr(mod, "CHUNK_TIMEOUT", 1500 if a.tier == "quick" else 7200)
     with ctx.Pool(jobs, maxtasksperchild=per_child) as pool:
-        for idx, r, err in pool.imap_unordered(_run_chunk, work, chunksize=1):
+        it = pool.imap_unordered(_run_chunk, work, chunksize=1)
+        done = 0
+        while done < len(work):
+            try:
+                idx, r, err = it.next(timeout=chunk_timeout)
+            except StopIteration:
+                break
+            except mp.TimeoutError:
+                # a worker died (e.g. killed for memory) or hangs: never wait forever
+                errors.append((-1, f"no chunk finished within {chunk_timeout}s ({done} of {len(work)} chunks done); pool terminated"))
+                pool.terminate()
+                break
+            done += 1
             if err is not None:
                 errors.append((idx, err))
                 continue
